@@ -271,14 +271,14 @@ pub fn run(s: &Session) {
     let td: Vec<String> = pool::pool(false).names(&["block", "tx", "header"]);
     let n_td = td.len() as u64;
     let strat_names = td.clone();
-    s.forall("test-data-mutants", s.pick(40, 400) * n_td, move || {
+    s.forall("test-data-mutants", s.pick(150, 1500) * n_td, move || {
         let names = strat_names.clone();
         (any::<u16>(), pool::form_ops(6)).prop_map(move |(sel, ops)| Case { name: names[pvkit::pick_idx(sel, names.len())].clone(), ops })
     }, check);
     if thorough {
         let chunk: Vec<String> = names.iter().filter(|n| n.contains(".chunk#")).cloned().collect();
         let n = chunk.len() as u64;
-        s.forall("chunk-block-mutants", 20 * n, move || {
+        s.forall("chunk-block-mutants", 30 * n, move || {
             let names = chunk.clone();
             (any::<u16>(), pool::form_ops(6)).prop_map(move |(sel, ops)| Case { name: names[pvkit::pick_idx(sel, names.len())].clone(), ops })
         }, check);
